@@ -445,11 +445,20 @@ static MIR_context_t build (MIR_context_t ctx, char *desc) {
   char *stmt, *save1;
   /* split on ';' */
   for (stmt = strtok_r (desc, ";", &save1); stmt != NULL; stmt = strtok_r (NULL, ";", &save1)) {
-    char *tok[MAXTOK];
+    /* the token array grows with the statement (a data item may have several hundred thousand elements; a fixed
+       array of MAXTOK entries used to cut such statements short without a word) */
+    static char **tok = NULL;
+    static size_t tok_cap = 0;
     int nt = 0;
     char *save2;
-    for (char *t = strtok_r (stmt, " \t\r\n", &save2); t != NULL && nt < MAXTOK; t = strtok_r (NULL, " \t\r\n", &save2))
+    for (char *t = strtok_r (stmt, " \t\r\n", &save2); t != NULL; t = strtok_r (NULL, " \t\r\n", &save2)) {
+      if ((size_t) nt + 1 >= tok_cap) {
+        tok_cap = tok_cap == 0 ? MAXTOK : tok_cap * 2;
+        tok = realloc (tok, tok_cap * sizeof (char *));
+        if (tok == NULL) exit (3);
+      }
       tok[nt++] = t;
+    }
     if (nt == 0) continue;
     const char *k = tok[0];
     if (!strcmp (k, "newctx")) {
